@@ -259,6 +259,8 @@ def extract_history(trace_path, line):
     with open(trace_path) as f:
         lines = f.readlines()
     i = line - 1
+    if '"ev":"case"' in lines[i][:40]:
+        return [lines[i]]     # calculation cases are self-contained
     start = i
     while start > 0 and '"ev":"reset"' not in lines[start][:40]:
         start -= 1
